@@ -256,7 +256,10 @@ func genCase(rng *rand.Rand, n int, seed int64, pf Profile) *CaseDesc {
 					min = 0
 				}
 				p.Out = pickOut(min)
-				if min == 0 && chance(rng, 0.6) {
+				if min == 0 && chance(rng, 0.25) {
+					// returns Unused only: counts like returning nothing (not a static injector, auto-desired)
+					p.Out = []int{cUnus}
+				} else if min == 0 && chance(rng, 0.6) {
 					p.Out = nil
 					// an auto-desired provider that cannot be included (an input nobody provides) but still
 					// lists earlier providers as its sources: it must have no influence on what is eliminated
